@@ -247,7 +247,8 @@ def call_method(eng, st, recv, name, args, kwargs, node):
         if isinstance(o, Obj):
             if name in o.attrs:
                 return call_value(eng, st, o.attrs[name], args, kwargs, node)
-            raise Unsupported(f"method {name} of {o.tag}")
+            # a method we have no contract for on a modelled object: weakest contract
+            return opaque_call(eng, st, f"{o.tag}.{name}", args, kwargs)
     if isinstance(recv, Exc) and name == "add_note":
         recv.notes.append(args[0])
         return [(st, NONE)]
